@@ -3,7 +3,8 @@
 case = {"lang": "c" | "c3" | "ir", "src": text, "features": [construct tags of the generator]}
 
 C:  valid C99 (gcc -std=c99 -fsyntax-only -pedantic-errors is silent) from vf/gencdecl.py; ppci.api.c_to_ir +
-    optimize at every level, then ppci.api.cc(x86_64, -O2).
+    optimize at every level, then (a third of the inputs) ppci.api.cc(x86_64, -O2).  Two generator profiles: "supported"
+    uses only constructs of the table SUPPORTED, "full" uses everything.
 C3: modules from vf/genc3mini.py (constructs of docs/test_c3/librt only); c3_to_ir + optimize at every level, then c3c.
 IR: print_module of vf/genir modules with whitespace variations; read_module + verify + optimize at every level.
 
@@ -38,7 +39,8 @@ RULE = (
     "-pedantic-errors accepts them; (2) C3 modules from vf/genc3mini.py (constants, struct/array/pointer types, "
     "initialised globals, functions with all statements and operators of docs + test_c3 + librt); (3) IR text = "
     "print_module of vf/genir modules with validity-preserving whitespace variations.  Each input is compiled at "
-    "levels 0,1,2,s (front end + optimize) and once through cc/c3c for x86_64.  A case is in the supported stream when "
+    "levels 0,1,2,s (front end + optimize); a third of the C/C3 inputs also go through the whole cc/c3c pipeline for "
+    "x86_64 at -O2.  A case is in the supported stream when "
     "every construct tag it uses is backed by a use in ppci's docs/samples/tests (table SUPPORTED), else in the "
     "unsupported-but-valid stream (internal errors listed in evidence only).  non-trivial = uses an initialiser with "
     "a non-literal constant expression, an out-of-range constant, a nested aggregate, or control flow nested >= 2 deep "
@@ -143,7 +145,7 @@ SUPPORTED = {
     "expr:incdec": "test/samples/simple/bitfields.c:27",
     "expr:comma": TC + ":193",
     "stmt:empty": "examples/riscvmurax/csrc/nos/clib.c:282",
-    "stmt:while": "librt/swmuldiv.c3 / test/samples/simple/control_flow.c",
+    "stmt:while": "test/samples/simple/control_flow.c",
     "stmt:do-while": TC + ":111",
     "stmt:for": TC + ":118",
     "stmt:for-declaration": TC + ":133",
@@ -320,7 +322,10 @@ def classify(case, msg):
     if not mo:
         return None
     etype, frame = mo.group(1), mo.group(2)
+    assumed_fixed = {x.strip() for x in os.environ.get("VERIF_C28_FIXED", "").split(",") if x.strip()}
     for kid, (lang, t, fr, rx) in FINDINGS.items():
+        if kid in assumed_fixed:
+            continue
         if lang == case["lang"] and t == etype and fr == frame and (rx is None or re.search(rx, case["src"])):
             return kid
     return None
@@ -390,7 +395,8 @@ def _worker(arg):
     if lang == "c-supported":
         lang, profile = "c", "supported"
     stats = Stats()
-    open_ids = open_finding_ids(PID)
+    # VERIF_C28_FIXED=id,id: treat these findings as repaired (exclusions off) - used with tools/withpatch.sh
+    open_ids = set(open_finding_ids(PID)) - {x.strip() for x in os.environ.get("VERIF_C28_FIXED", "").split(",") if x.strip()}
     avoid = set()
     for kid in open_ids:
         avoid |= set(AVOID.get(kid, ()))
